@@ -26,6 +26,10 @@ def history(kind, seed, perturb):
         kw["input_bases"] = np.array([list("ZZZ"), list("XZZ"), list("ZYZ"), list("ZZZ"), list("ZZX"), list("YYZ"), list("ZZZ"), list("XXX")])
     np.random.seed(perturb + 1)
     st.fit(data, epochs=2, pos_batch_size=3, neg_batch_size=2, k=2, lr=0.1, **kw)
+    # k = 0: the negative-phase start states enter the update directly (identically seeded Gibbs chains started from
+    # different states tend to coalesce after a step or two, which would hide a foreign random source)
+    np.random.seed(perturb + 2)
+    st.fit(data, epochs=2, pos_batch_size=3, neg_batch_size=2, k=0, lr=0.3, **kw)
     for net in st.networks:
         for p in getattr(st, net).parameters():
             out.append(p.detach().clone())
